@@ -96,8 +96,8 @@ def evaluate(f):
             k = next((i for i, (x, y) in enumerate(zip(e0, e1)) if x != y), min(len(e0), len(e1)))
             divs.append(("understood-content-changed", "entry %d understood as %s before, as %s after formatting" % (
                 k + 1, e0[k][:300] if k < len(e0) else None, e1[k][:300] if k < len(e1) else None)))
-        errlines = {e["line"] for e in f.parse0["errs"]}
-        plines = {p["line"] for e in f.parse0["entries"] for p in (e.get("postings") or [])}
+        errlines = {e["line"] for e in (f.parse0.get("errs") or [])}
+        plines = {p["line"] for e in (f.parse0.get("entries") or []) for p in (e.get("postings") or [])}
         for li, (a, b) in enumerate(zip(ol, fl)):
             if (li + 1) in errlines and b.rstrip(" \t") != a.rstrip(" \t"):
                 divs.append(("text-lost", "line %d, on which the parser reported an error, %r became %r" % (li + 1, a, b)))
